@@ -2,7 +2,7 @@
   Driver handlers, group Port: C06 (port impedance, Thevenin/Norton) and C09 (multi-frequency
   steady state).  Model functions come from CC/Model/{Port,MultiFreq}.lean, the executable
   Spec of C06 from CC/Spec/Port.lean (+ the tableau of DSpec.lean).  Certificates
-  (inverses, solutions) are found by the unverified elimination of LinAlg.lean and checked
+  (solutions) are found by the unverified elimination of LinAlg.lean and checked
   exactly with the model's own products before they are used.
 -/
 import CC.Driver.Json
@@ -16,17 +16,11 @@ open Lean
 
 /-! ### certificates -/
 
-/-- exact inverse, returned only when `Y·Z = 1` was checked -/
-def invChecked (Y : List (List GQ)) : Option (List (List GQ)) :=
-  match inverseExact Y with
-  | none => none
-  | some Z => if matMul Y Z = identity Y.length then some Z else none
-
 /-- exact solution, returned only when `A·x = b` was checked -/
 def solveChecked (A : List (List GQ)) (b : List GQ) : Option (List GQ) :=
   match solveExact A b with
   | none => none
-  | some x => if matVec A x = b then some x else none
+  | some x => if x.length = b.length ∧ matVec A x = b then some x else none
 
 /-! ### C06: model -/
 
@@ -37,17 +31,18 @@ def h_portPre : Handler := fun j => do
   match N.portPre n1 n2 with
   | .error e => pure (Json.mkObj [("err", e.tag)])
   | .ok .early => pure (Json.mkObj [("early", true)])
-  | .ok (.mat N' Y a) =>
-    pure (Json.mkObj [("Y", jsonMat Y), ("nodes", jsonStrs N'.nodes), ("node1", Json.str a),
-      ("zero", Json.str N'.zero), ("unpruned", jsonMat N'.nodeAdmittance)])
+  | .ok (.sys N' keep A e i1) =>
+    pure (Json.mkObj [("A", jsonMat A), ("e", jsonVec e), ("i1", Json.num (Lean.JsonNumber.fromNat i1)),
+      ("keep", Json.arr (keep.map Json.bool).toArray),
+      ("nodes", jsonStrs N'.nodes), ("vs", jsonStrs N'.vsIds), ("zero", Json.str N'.zero)])
 
 def h_portZ : Handler := fun j => do
   let N ← getNet (← j.getObjVal? "net")
-  pure (jsonExcept jsonGQ (N.openCircuitImpedance invChecked (← getStr j "n1") (← getStr j "n2")))
+  pure (jsonExcept jsonGQ (N.openCircuitImpedance solveChecked (← getStr j "n1") (← getStr j "n2")))
 
 def h_elemZ : Handler := fun j => do
   let N ← getNet (← j.getObjVal? "net")
-  pure (jsonExcept jsonGQ (N.elementImpedance invChecked (← getStr j "id")))
+  pure (jsonExcept jsonGQ (N.elementImpedance solveChecked (← getStr j "id")))
 
 def h_ocVoltage : Handler := fun j => do
   let N ← getNet (← j.getObjVal? "net")
@@ -55,14 +50,14 @@ def h_ocVoltage : Handler := fun j => do
 
 def h_scCurrent : Handler := fun j => do
   let N ← getNet (← j.getObjVal? "net")
-  pure (jsonExcept jsonGQ (N.shortCircuitCurrent invChecked solveChecked (← getStr j "n1") (← getStr j "n2")))
+  pure (jsonExcept jsonGQ (N.shortCircuitCurrent solveChecked (← getStr j "n1") (← getStr j "n2")))
 
 def h_equivalents : Handler := fun j => do
   let N ← getNet (← j.getObjVal? "net")
   let n1 ← getStr j "n1"
   let n2 ← getStr j "n2"
-  let th := N.theveninEquivalent invChecked solveChecked n1 n2
-  let no := N.nortonEquivalent invChecked solveChecked n1 n2
+  let th := N.theveninEquivalent solveChecked n1 n2
+  let no := N.nortonEquivalent solveChecked n1 n2
   pure (Json.mkObj [
     ("thevenin", jsonExcept (fun (t : TheveninEq GQ) => Json.mkObj [("U", jsonGQ t.U), ("Z", jsonGQ t.Z)]) th),
     ("norton", jsonExcept (fun (t : NortonEq GQ) => Json.mkObj [("I", jsonGQ t.I), ("Y", jsonGQ t.Y)]) no)])
@@ -73,11 +68,11 @@ def h_portSweep : Handler := fun j => do
   let nets ← (← getArr j "nets").toList.mapM getNet
   let f : Net String GQ → Except Err GQ ←
     match (getStr j "id").toOption with
-    | some id => pure (fun (N : Net String GQ) => N.elementImpedance invChecked id)
+    | some id => pure (fun (N : Net String GQ) => N.elementImpedance solveChecked id)
     | none => do
       let n1 ← getStr j "n1"
       let n2 ← getStr j "n2"
-      pure (fun (N : Net String GQ) => N.openCircuitImpedance invChecked n1 n2)
+      pure (fun (N : Net String GQ) => N.openCircuitImpedance solveChecked n1 n2)
   let dc : Json := match nets with
     | N0 :: _ => jsonExcept jsonGQ (dcResistance (fun z : GQ => GQ.ofRat z.re) f N0)
     | [] => Json.null
@@ -171,7 +166,8 @@ def h_freqComponents : Handler := fun j => do
   let comps ← (← getArr j "comps").toList.mapM fun c => do
     pure ({ ty := ← getStr c "ty", w := ← getOptRat c "w" } : FComp)
   let wmax ← getRatK j "wmax"
-  pure (jsonExcept jsonRats (frequencyComponents comps wmax))
+  let wres ← getRatK j "wres"
+  pure (jsonExcept jsonRats (frequencyComponents comps wmax wres))
 
 /-- op `active_index`: for every source × every analysed frequency, the harmonic the source
 contributes there (`null` = replaced by a short / an open circuit) -/
@@ -195,8 +191,8 @@ def h_timeValue : Handler := fun j => do
 def h_twoSided : Handler := fun j => do
   let ws ← getRats j "ws"
   let X ← getVec (← j.getObjVal? "X")
-  pure (Json.mkObj [("as_written", jsonExcept jsonRats (twoSidedAsWritten ws)),
-    ("w", jsonRats (mirrorW ws)), ("X", jsonVec (mirrorX X))])
+  let r := series false ws X
+  pure (Json.mkObj [("w", jsonRats r.1), ("X", jsonVec r.2)])
 
 def handlersPort : List (String × Handler) :=
   [("port_pre", h_portPre), ("port_z", h_portZ), ("elem_z", h_elemZ), ("oc_voltage", h_ocVoltage),
